@@ -28,6 +28,10 @@ theorem getD_lt {α} (l : List α) (d : α) (p : Nat) (h : p < l.length) : l.get
 theorem getD_ge {α} (l : List α) (d : α) (p : Nat) (h : l.length ≤ p) : l.getD p d = d := by
   simp [List.getD, List.getElem?_eq_none h]
 
+theorem pkContract_of_contract' {k : PK} (P : Store → Prop)
+    (h : Contract (PK.prune k) (fun a => PK.holds a k = true) (PK.triggers k)) : PKContract k P :=
+  ⟨fun c a _ hm hs => h.sound c a hm hs, h.contracting, fun c c' a _ hf hm e => h.checking c c' a hf hm e, h.resp⟩
+
 def AllContract (ps : List PK) (P : Store → Prop) : Prop := ∀ k ∈ ps, PKContract k P
 
 theorem getD_contract {ps : List PK} {P : Store → Prop} (h : AllContract ps P) (p : Nat) :
@@ -173,6 +177,29 @@ theorem propagate_shrinks (ps : List PK) (pol : Policy) (P : Store → Prop)
         have g := (getD_contract hc p).contracting _ _ e
         obtain ⟨s1, n1⟩ := ih _ _ _ h
         exact ⟨fun i => (s1 i).trans (g.sub i), fun hn => n1 (g.ne hn)⟩
+
+/-- the store invariant is kept by propagation -/
+theorem propagate_inv (ps : List PK) (pol : Policy) (P : Store → Prop) (hP : Closed P)
+    (hc : AllContract ps P) :
+    ∀ (fuel : Nat) (q : List Nat) (st st' : Store), P st → propagate ps pol fuel q st = .ok st' → P st' := by
+  intro fuel
+  induction fuel with
+  | zero => intro q st st' _ h; simp [propagate] at h
+  | succ f ih =>
+    intro q st st' hp h
+    simp only [propagate] at h
+    cases hpk : pol.pick q with
+    | none => rw [hpk] at h; cases h; exact hp
+    | some pq =>
+      obtain ⟨p, q'⟩ := pq
+      rw [hpk] at h
+      simp only at h
+      cases e : (ps.getD p .noop).prune { st := st, ev := [] } with
+      | none => rw [e] at h; cases h
+      | some c =>
+        rw [e] at h
+        simp only at h
+        exact ih _ _ _ (hP.step _ _ _ hp ((getD_contract hc p).contracting _ _ e)) h
 
 /-! ### the fixpoint: every propagator not on the agenda is stable -/
 
